@@ -30,7 +30,7 @@ CLAIM = {
             "at open (no entry, tombstones included, is skipped) and get_version answers from that cache; (R16.5) the "
             "second batch entry point put_batch_unlogged (trait default, cloud override, persister wrapper) hands the "
             "caller's whole batch, element for element, to one put_batch and writes no key on its own. Does not "
-            "decide agreement over arbitrary request sequences nor reopen equality of contents.",
+            "decide agreement over arbitrary request sequences nor reopen equality of contents. (R16.6) reopen clause, necessary part: the on-disk store commits every write transaction with immediate durability (same obligation as C11 R11.6), so what a put acknowledged is what a reopen after a crash finds.",
     "note": "redb transaction semantics (commit/abort) trusted by name; MemoryKVVStore BTreeMap semantics",
     "technique": "static analysis: sibling agreement of guard scenarios across implementations + failure atomicity + loop must-pass",
 }
@@ -44,6 +44,7 @@ def run(ctx):
     r163(ctx)
     r164(ctx)
     r165(ctx)
+    r166(ctx)
 
 
 def _next_version_shape(fv, operand, e):
@@ -591,3 +592,9 @@ def r165(ctx, rid="R16.5", fns=None):
                f"({single[0][1].callee.name if single and single[0][1].callee else ''} line {single[0][0] if single else ''}): a refused element "
                "leaves the earlier ones written", where=where, sample="no put/put_with_version/delete")
     ctx.floor(rid, "put_batch_unlogged implementations", n, len(fns or UNLOGGED))
+
+
+def r166(ctx):
+    """`the on-disk backend returns the same contents after being reopened`: necessary part (C11 R11.6)"""
+    from rules import C11 as _c11
+    _c11.r116(ctx, rid="R16.6")
